@@ -1,9 +1,11 @@
 package disk
 
 import (
+	"fmt"
 	"io"
 	"os"
 	"path/filepath"
+	"strings"
 
 	"github.com/goatcms/goatcore/filesystem"
 )
@@ -18,12 +20,27 @@ func Copy(src, dest string) error {
 
 // CopyDirectory copy a directory and sub-direcotories and files on local files system.
 func CopyDirectory(src, dest string) error {
+	src = filepath.Clean(src)
+	dest = filepath.Clean(dest)
+	if !IsDir(src) {
+		return fmt.Errorf("%s is not a directory", src)
+	}
+	if dest == src || strings.HasPrefix(dest, src+string(filepath.Separator)) {
+		return fmt.Errorf("can not copy %s into itself (%s)", src, dest)
+	}
 	return filepath.Walk(src, func(path string, info os.FileInfo, err error) error {
-		subPath := path + "/" + info.Name()
-		if info.IsDir() {
-			return MkdirAll(subPath, filesystem.DefaultUnixDirMode)
+		if err != nil {
+			return err
 		}
-		return CopyFile(src+subPath, dest+subPath)
+		rel, err := filepath.Rel(src, path)
+		if err != nil {
+			return err
+		}
+		target := filepath.Join(dest, rel)
+		if info.IsDir() {
+			return MkdirAll(target, filesystem.DefaultUnixDirMode)
+		}
+		return CopyFile(path, target)
 	})
 }
 
